@@ -51,13 +51,13 @@ size_t vf_once_sync_stride (void);
 void *vf_pool_mu_addr (void);
 
 #define MAXOBJ 16
-#define MAXOPS 200
+#define MAXOPS 800
 #define START_NS 1000000000000ll
 
 enum opc { OP_LOCK = 1, OP_UNLOCK, OP_RLOCK, OP_RUNLOCK, OP_TRYLOCK, OP_RTRYLOCK, OP_UNLOCK_IF, OP_RUNLOCK_IF,
 	   OP_UNLOCK_NW, OP_WR, OP_RD, OP_INC, OP_DEC, OP_CVWAIT, OP_SIGNAL, OP_BROADCAST, OP_AWAIT, OP_MUWAIT,
 	   OP_NOTE_NEW, OP_NOTIFY, OP_IS_NOTIFIED, OP_NOTE_WAIT, OP_NOTE_FREE, OP_NOTE_EXPIRY,
-	   OP_AFTER_BLOCKED, OP_CTR_NEW, OP_CTR_ADD, OP_CTR_VALUE, OP_CTR_WAIT, OP_CTR_FREE, OP_ONCE, OP_WAITN,
+	   OP_AFTER_BLOCKED, OP_ADVANCE, OP_CTR_NEW, OP_CTR_ADD, OP_CTR_VALUE, OP_CTR_WAIT, OP_CTR_FREE, OP_ONCE, OP_WAITN,
 	   OP_DBG_MU, OP_DBG_MUW, OP_DBG_CV, OP_DBG_CVW, OP_UNREF, OP_YIELD, OP_ASSERT_HELD, OP_RASSERT_HELD, OP_IS_READER,
 	   OP_SEM_P, OP_SEM_PD, OP_SEM_V };
 
@@ -115,6 +115,7 @@ static void chist_check (void) {
 		}
 	}
 }
+static int in_cv_wait_mu[16]; /* 1 + index of the mutex of the nsync_cv_wait call a fiber is inside, else 0 */
 static int waiting_mu[16]; static struct cond_arg *waiting_cond[16]; /* the condition of the nsync_mu_wait call a fiber is inside (C06 quiescence oracle) */
 
 static int nfibers_total;
@@ -171,8 +172,19 @@ static int cond_arg_eq (const void *a, const void *b) {
 }
 /* the once function takes a while: several scheduling points between its start and its end */
 static int once_cb_len = 4; /* scheduling points inside the once function (header line `oncecb <n>`): a long-running initialiser lets the clock pass several of the waiters' polling deadlines */
-static void once_f0 (void) { int q; vf_log ("cb f start"); once_runs[0]++; for (q = 0; q != once_cb_len; q++) { vf_sched_note (); } once_done[0] = 1; vf_log ("cb f end"); }
-static void once_farg (void *a) { int i = (int) (intptr_t) a; int q; vf_log ("cb farg start"); once_runs[i]++; for (q = 0; q != once_cb_len; q++) { vf_sched_note (); } once_done[i] = 1; vf_log ("cb farg end"); }
+static int once_nest_to[256], once_nest_var[256]; static int once_nest_set;  /* header `oncenest o<i> o<j> <v>`: the function of once i calls run_once variant v on once j */
+static void once_farg (void *a);
+static void once_nested (int i) {
+	if (once_nest_set && once_nest_to[i] > 0) {
+		int j = once_nest_to[i]; int v = once_nest_var[i];
+		vf_log ("cb nested run_once once%d variant %d", j, v);
+		if (v == 1) { nsync_run_once_arg (&onces[j], &once_farg, (void *) (intptr_t) j); } else { nsync_run_once_arg_spin (&onces[j], &once_farg, (void *) (intptr_t) j); }
+		if (!once_done[j]) { vf_violation ("once-early-return", "nested run_once returned before the function completed"); }
+		if (once_runs[j] != 1) { vf_violation ("once-count", "once function ran %d times", once_runs[j]); }
+	}
+}
+static void once_f0 (void) { int q; vf_log ("cb f start"); once_runs[0]++; for (q = 0; q != once_cb_len; q++) { vf_sched_note (); if (q == once_cb_len / 2) { once_nested (0); } } once_done[0] = 1; vf_log ("cb f end"); }
+static void once_farg (void *a) { int i = (int) (intptr_t) a; int q; vf_log ("cb farg start"); once_runs[i]++; for (q = 0; q != once_cb_len; q++) { vf_sched_note (); if (q == once_cb_len / 2) { once_nested (i); } } once_done[i] = 1; vf_log ("cb farg end"); }
 
 static nsync_time mk_deadline (struct op *o, char *txt, size_t n) {
 	nsync_time t;
@@ -251,7 +263,8 @@ static void run_prog (void *arg) {
 		case OP_DEC: vars[o->a]--; vf_log ("data w x%d %d", o->a, vars[o->a]); break;
 		case OP_RD: vf_log ("data r x%d %d", o->a, vars[o->a]); break;
 		case OP_YIELD: vf_sched_note (); break;
-		case OP_AFTER_BLOCKED: { long guard = 0; while (!vf_fiber_blocked (o->a) && guard++ < 20000) { vf_sched_note (); } break; } /* deterministic set-up order: go on once fiber a sleeps (or is done) */
+		case OP_ADVANCE: vf_advance ((int64_t) o->a); break;
+		case OP_AFTER_BLOCKED: vf_wait_fiber_blocked (o->a); break; /* deterministic set-up order: go on once fiber a sleeps (or is done) */
 		case OP_CVWAIT: case OP_AWAIT: {
 			int res = 0; nsync_time t = mk_deadline (o, dt, sizeof (dt));
 			nsync_note cn = o->e >= 0 ? notes[o->e] : NULL;
@@ -259,7 +272,9 @@ static void run_prog (void *arg) {
 			while (o->code == OP_CVWAIT ? res == 0 : (res == 0 && vars[o->c] != o->nobj)) {
 				vf_log ("call nsync_cv_wait_with_deadline cv%d mu%d %s %s", o->a, o->b, dt, cn ? vf_name_of (cn) : "-");
 				shadow_rel (o->b, wmode);
+				if (me >= 0 && me < 16) { in_cv_wait_mu[me] = 1 + o->b; }
 				vf_api_enter (); res = nsync_cv_wait_with_deadline (&cvs[o->a], &mus[o->b], t, cn); vf_api_leave ();
+				if (me >= 0 && me < 16) { in_cv_wait_mu[me] = 0; }
 				shadow_acq (o->b, wmode);
 				vf_log ("ret nsync_cv_wait_with_deadline %s", res == 0 ? "0" : res == ETIMEDOUT ? "ETIMEDOUT" : res == ECANCELED ? "ECANCELED" : "?");
 				check_wait_result ("nsync_cv_wait_with_deadline", res, o, cn);
@@ -434,6 +449,7 @@ static int parse_op (char *s, struct op *o) {
 	else if (IS ("inc")) { o->code = OP_INC; o->a = A (1, "x"); }
 	else if (IS ("dec")) { o->code = OP_DEC; o->a = A (1, "x"); }
 	else if (IS ("yield")) { o->code = OP_YIELD; }
+	else if (IS ("advance")) { o->code = OP_ADVANCE; o->a = n > 1 ? atoi (tok[1]) : 0; }
 	else if (IS ("after_blocked")) { o->code = OP_AFTER_BLOCKED; o->a = n > 1 ? atoi (tok[1]) : 0; }
 	else if (IS ("cvwait")) { o->code = OP_CVWAIT; o->a = A (1, "cv"); o->b = A (2, "mu"); parse_dl (n > 3 ? tok[3] : NULL, o); o->e = n > 4 ? objnum (tok[4], "n") : -1; }
 	else if (IS ("await")) { o->code = OP_AWAIT; o->a = A (1, "cv"); o->b = A (2, "mu"); o->c = A (3, "x"); o->nobj = n > 4 ? atoi (tok[4]) : 0; parse_dl (n > 5 ? tok[5] : NULL, o); o->e = n > 6 ? objnum (tok[6], "n") : -1; }
@@ -484,7 +500,7 @@ static struct prog preprog;
 static char *scen_lines[256]; static int nscen_lines;
 static int parse_scenario (char **lines, int nlines) {
 	int i;
-	nmu = 1; ncv = 0; nvar = 0; nonce = 0; nsem = 0; nconds = 0; nprogs = 0; sem_binary = 0; expect_stuck_ok = 0; once_cb_len = 4; nchist = 0; preprog.n = 0;
+	nmu = 1; ncv = 0; nvar = 0; nonce = 0; nsem = 0; nconds = 0; nprogs = 0; sem_binary = 0; expect_stuck_ok = 0; once_cb_len = 4; nchist = 0; once_nest_set = 0; memset (once_nest_to, 0, sizeof (once_nest_to)); memset (in_cv_wait_mu, 0, sizeof (in_cv_wait_mu)); preprog.n = 0;
 	for (i = 0; i != MAXOBJ; i++) { var_mu[i] = -1; }
 	/* first pass: sizes */
 	for (i = 0; i != nlines; i++) {
@@ -497,6 +513,7 @@ static int parse_scenario (char **lines, int nlines) {
 			if ((p = strstr (l, "once=")) != NULL) { nonce = atoi (p + 5); }
 			if ((p = strstr (l, "sem=")) != NULL) { nsem = atoi (p + 4); }
 		} else if (strncmp (l, "sem ", 4) == 0) { sem_binary = (strstr (l, "binary") != NULL); }
+		else if (strncmp (l, "oncenest ", 9) == 0) { int a = 0, b = 0, v = 1; if (sscanf (l + 9, "o%d o%d %d", &a, &b, &v) >= 2 && a >= 0 && a < 256 && b > 0 && b < 256) { once_nest_to[a] = b; once_nest_var[a] = v; once_nest_set = 1; } }
 		else if (strncmp (l, "oncecb ", 7) == 0) { once_cb_len = atoi (l + 7); if (once_cb_len < 1) { once_cb_len = 1; } }
 		else if (strncmp (l, "expect stuck-ok", 15) == 0) { expect_stuck_ok = 1; }
 	}
@@ -526,7 +543,8 @@ static int parse_scenario (char **lines, int nlines) {
 			for (t = strtok_r (body, ";", &sv); t != NULL; t = strtok_r (NULL, ";", &sv)) {
 				int r = parse_op (t, &p->ops[p->n]);
 				if (r < 0) { return (-1); }
-				if (r > 0 && p->n < MAXOPS - 1) { p->n++; }
+				if (r > 0 && p->n >= MAXOPS - 1) { fprintf (stderr, "scenario: more than %d operations in one fiber\n", MAXOPS - 1); exit (97); } /* never truncate silently: a dropped final unlock once looked like a deadlock of the library */
+				if (r > 0) { p->n++; }
 			}
 		}
 	}
@@ -554,6 +572,15 @@ static int run_one (char **lines, int nlines, struct vf_config *cfg, FILE *out) 
 		   inside nsync_mu_wait whose condition is TRUE has been left asleep by the release that made it true —
 		   a violation even in scenarios that may legitimately block */
 		int k;
+		/* C04 / C02 at quiescence: a cv waiter that a signal / broadcast has already taken off the cv's queue (woken or
+		   handed to the mutex queue) is still asleep although the mutex it needs is free and nobody can move */
+		for (k = 0; k != 16; k++) {
+			if (in_cv_wait_mu[k] != 0 && vf_waiter_unlinked_by_waker (k) &&
+			    (*(volatile uint32_t *) &mus[in_cv_wait_mu[k] - 1] & (MU_WLOCK | MU_RLOCK_FIELD)) == 0) {
+				vf_violation ("cv-woken-asleep", "fiber %d was taken off the cv queue by a signal / broadcast but is still asleep although mu%d is free and no thread can move", k, in_cv_wait_mu[k] - 1);
+				outcome = VF_ORACLE;
+			}
+		}
 		for (k = 0; k != 16; k++) {
 			struct cond_arg *c = waiting_cond[k];
 			if (c != NULL && (c->kind ? (*c->var >= c->val) : (*c->var == c->val)) &&
